@@ -153,6 +153,28 @@ def check_case(case):
                     return labels, V
                 raise
             verdict, rel = adj.compare(a, d, err, scale * 1e-3, b.tol)
+            if verdict == "bad" and not b.linear and np.isfinite(d):
+                # the Richardson error estimate is not a bound (e.g. x**p with p ~ 50 in the overhang filter): confirm a
+                # disagreement at two finer step sizes. A wrong sensitivity keeps |a-d| as h -> 0; a truncation error of
+                # the differences shrinks.
+                h0 = b.h
+                gaps = [abs(a - d)]
+                try:
+                    for f in (0.25, 0.0625):
+                        b.h = h0 * f
+                        d2, e2 = adj.numeric(b, ws, dirs)
+                        gaps.append(abs(a - d2))
+                        v2, rel2 = adj.compare(a, d2, e2, scale * 1e-3, b.tol)
+                        if v2 != "bad":
+                            verdict, rel = "inconclusive", rel2
+                            break
+                    else:
+                        if gaps[2] < 0.35 * gaps[0]:      # still converging towards the analytic value
+                            verdict = "inconclusive"
+                finally:
+                    b.h = h0
+                if verdict != "bad":
+                    labels.append("fd_refined")
             if abs(d) > 1e-9 * max(scale, 1e-300):
                 labels.append("varies")
             if verdict == "inconclusive":
